@@ -33,7 +33,9 @@
      setup_once_before_claims, at_most_one_claim_per_partition, exactly_one_claim_unless_ending,
      claim_starts_at_committed_or_initial, cleanup_once_after_claims_returned,
      final_commit_after_cleanup, consume_returns_last, requests_carry_issued_identity,
-     fenced_member_rejoins_fresh, no_skip_across_sessions, consume_hang, close_hang, consume_panic *)
+     fenced_member_rejoins_fresh, no_skip_across_sessions, consume_hang, close_hang, consume_panic,
+     channels_closed_after_close (Close returned but the Errors() channel was never closed: the driver drains it
+     after every Close and the watchdog reports hang{what: "errors_not_closed"}; errors_closed c is the good case) *)
 EXTENDS Integers, Sequences, FiniteSets
 
 OC == {"c1", "c2"}
@@ -186,6 +188,7 @@ OLeave(o, e) ==
 \* (a client that sits in a healthy session nobody asked to end is only collateral of somebody else's hang)
 HangClause(o, e) ==
   IF e.what = "Close" THEN "close_hang"
+  ELSE IF e.what = "errors_not_closed" THEN "channels_closed_after_close"
   ELSE IF o.ph[e.c] = "setup" /\ ~Ending(o, e.c) THEN "scenario_stalled"
   ELSE "consume_hang"
 
